@@ -642,9 +642,14 @@ def sdpa(draw):
     P.update({"dtype": dt.name, "B": B, "S": S, "H": H, "Dh": Dh, "Dv": Dv, "Skv": Skv, "near_miss": nm, "mask": mask_kind,
               "mask_first": nm == "mask_first", "const_style": g.const_style, "mask_soft": draw(st.booleans())})
     P["mask_inf_row"] = bool(P["nan_guard"] and mask_kind != "none" and nm is None and draw(st.integers(0, 3)) == 0)
-    q = g.inp("query", dt, [B, H, S, Dh], [B, H, S, Dh])
+    # the head size as a SYMBOLIC dimension of query/key (exporters with dynamic shapes): the fusion cannot read 1/sqrt(Dh) off the shapes
+    P["dh_sym"] = bool(draw(st.integers(0, 3)) == 0)
+    if P["dh_sym"] and P["key_form"] == "reshape3d":
+        P["key_form"] = "T0132"
+    dsym = "Dh" if P["dh_sym"] else Dh
+    q = g.inp("query", dt, [B, H, S, dsym], [B, H, S, Dh])
     kshape = [B, Skv, H, Dh] if P["key_form"] == "BSHd" else [B, H, Skv, Dh]
-    k = g.inp("key", dt, kshape, kshape)
+    k = g.inp("key", dt, kshape[:-1] + [dsym], kshape)
     vB = 1 if nm == "value_batch1" else B
     v = g.inp("value", dt, [vB, H, Skv, Dv], [vB, H, Skv, Dv])
     mask = None
